@@ -25,6 +25,16 @@ def corpus():
     return items
 
 
+SNAP = None
+
+
+def snapshot():
+    """run the checkers from a frozen copy of /verif's code so that editing /verif during a long run cannot change results"""
+    global SNAP
+    SNAP = tempfile.mkdtemp(prefix="tjsnap-")
+    subprocess.run(["rsync", "-a", "--exclude", ".git", "--exclude", "evidence", "--exclude", "mutants", "--exclude", "seeded", "--exclude", "__pycache__", V + "/", SNAP + "/"], check=True)
+
+
 def run_one(item):
     name, props, patch, neutral = item
     d = tempfile.mkdtemp(prefix="tjreg-")
@@ -34,10 +44,13 @@ def run_one(item):
         p = subprocess.run(["patch", "-s", "-p1", "-d", d + "/repo"], stdin=open(patch), stdout=subprocess.PIPE, stderr=subprocess.STDOUT)
         if p.returncode != 0:
             return name, props, neutral, {"*": ("SKIPPED", "patch does not apply")}
-        targets = [c for c in props if c in CHECKS] if not neutral else [c for c in CHECKS if (c in props or len(sys.argv) > 1 and sys.argv[1] == "--all-neutral")]
+        if "--cross" in sys.argv:
+            targets = list(CHECKS)
+        else:
+            targets = [c for c in props if c in CHECKS] if not neutral else [c for c in CHECKS if (c in props or "--all-neutral" in sys.argv)]
         for c in targets:
             env = dict(os.environ, TJ_REPO=d + "/repo", TJ_EVIDENCE_DIR=d + "/ev")
-            q = subprocess.run([sys.executable, "-m", "tj.check", c], cwd=V, env=env, stdout=subprocess.PIPE, stderr=subprocess.STDOUT, text=True)
+            q = subprocess.run([sys.executable, "-m", "tj.check", c], cwd=SNAP or V, env=env, stdout=subprocess.PIPE, stderr=subprocess.STDOUT, text=True)
             first = ""
             for l in q.stdout.splitlines():
                 if "refuted:" in l or "ANALYSIS-BROKEN" in l:
@@ -51,18 +64,26 @@ def run_one(item):
 
 def main():
     items = corpus()
-    with ThreadPoolExecutor(max_workers=12) as ex:
-        results = list(ex.map(run_one, items))
+    snapshot()
+    try:
+        with ThreadPoolExecutor(max_workers=12) as ex:
+            results = list(ex.map(run_one, items))
+    finally:
+        shutil.rmtree(SNAP, ignore_errors=True)
     lines = ["# Checker self-test (tools/regress.py)", "",
              "Every row is a scratch copy of /repo with one patch applied; `1` = VIOLATION reported, `0` = silent, `2` = ANALYSIS-BROKEN.", "",
              "| change | kind | breaks | results (check: exit) | first report |", "|---|---|---|---|---|"]
-    missed, false_alarm, broken = [], [], []
+    missed, false_alarm, broken, cross = [], [], [], []
     for name, props, neutral, res in results:
         kind = "neutral" if neutral else ("seeded" if "-s" in name else "mutant")
         rs = ", ".join("%s: %s" % (c, r[0]) for c, r in sorted(res.items()))
         first = next((r[1] for c, r in sorted(res.items()) if r[1]), "")
         lines.append("| %s | %s | %s | %s | %s |" % (name, kind, ",".join(props), rs, first.replace("|", "/")))
         for c, r in res.items():
+            if not neutral and c not in props:
+                if r[0] == 1:
+                    cross.append((name, c))
+                continue
             if neutral and r[0] == 1:
                 false_alarm.append((name, c))
             if neutral and r[0] == 2:
@@ -73,8 +94,10 @@ def main():
                 broken.append((name, c))
     lines += ["", "missed (mutant/seed not reported by a check of its property): %s" % (missed or "none"),
               "false alarms on neutral refactors: %s" % (false_alarm or "none"), "analysis-broken (neither): %s" % (broken or "none")]
-    open(os.path.join(V, "REGRESSION.md"), "w").write("\n".join(lines) + "\n")
-    print("\n".join(lines[-3:]))
+    if "--cross" in sys.argv:
+        lines += ["", "checks of OTHER properties that also report the change (each triaged in DESIGN.md 0.6: the other property is broken too, or the report was a checker error): %s" % (cross or "none")]
+    open(os.path.join(V, "REGRESSION-cross.md" if "--cross" in sys.argv else "REGRESSION.md"), "w").write("\n".join(lines) + "\n")
+    print("\n".join(lines[-5:]))
     return 1 if false_alarm else 0
 
 
